@@ -174,7 +174,7 @@ def main():
             }
         ],
         "checks": checks,
-        "notes": "All checks: ./check <id> quick|thorough, exit 0 / 1 + VIOLATION line / 2 harness error. Deterministic in (tree, tier, VERIF_SEED). Known findings: KNOWN_FINDINGS.txt. Seeded-mutant audit: seeded/ and DESIGN.md §8.",
+        "notes": "All checks: ./check <id> quick|thorough, exit 0 / 1 + VIOLATION line / 2 harness error. Deterministic in (tree, tier, VERIF_SEED). Known findings: KNOWN_FINDINGS.txt. Sensitivity audit: 280 independently seeded changes (seeded/, DESIGN.md §11.4), hand-written and automatic mutants (mutants/, §11.3).",
         "not_applicable": na,
     }
     with open(os.path.join(ROOT, "MANIFEST.json"), "w") as fh:
